@@ -94,6 +94,16 @@ func (g *PG) varsOf(t Ty) []pvar {
 	return out
 }
 
+func (g *PG) varsOfGlobals(t Ty) []pvar {
+	var out []pvar
+	for _, v := range g.globals {
+		if v.ty == t {
+			out = append(out, v)
+		}
+	}
+	return out
+}
+
 func (g *PG) with(vs []pvar, f func() *canon.Node) *canon.Node {
 	n := len(g.scope)
 	g.scope = append(g.scope, vs...)
@@ -142,6 +152,10 @@ func (g *PG) Expr(t Ty, d int) *canon.Node {
 		if g.o.Try && r.Intn(2) == 0 {
 			return g.genTry(t, d)
 		}
+		// immediately applied closure without parameters whose body defines something: the def binds in the
+		// call's own fresh scope
+		g.stat("nullary-iife-with-def")
+		return li(li(sy("fn"), li(), li(sy("def"), sy("inner"+g.o.Suffix), g.Expr(TInt, d+1)), g.mark(), g.Expr(t, d+1)))
 	case 6:
 		if g.o.Macros && !g.o.NoLibMacros && r.Intn(2) == 0 {
 			return g.genLibMacro(t, d)
@@ -719,7 +733,7 @@ func (g *PG) genMacroDef() []*canon.Node {
 	var def *canon.Node
 	uq := func(s string) *canon.Node { return li(sy("unquote"), sy(s)) }
 	arity := 2
-	switch r.Intn(7) {
+	switch r.Intn(9) {
 	case 0: // unless-like: operands must arrive unevaluated, only one branch evaluated
 		def = li(sy("fn"), li(sy("c"), sy("x")), li(sy("quasiquote"), li(sy("if"), uq("c"), canon.Ke("skipped"), uq("x"))))
 	case 1: // evaluates operand twice
@@ -737,6 +751,17 @@ func (g *PG) genMacroDef() []*canon.Node {
 		arity = -2
 	case 5: // expands to another macro (library cond) and introduces a let
 		def = li(sy("fn"), li(sy("a"), sy("b")), li(sy("quasiquote"), li(sy("let"), li(sy("tmp"), uq("a")), li(sy("cond"), li(sy("nil?"), sy("tmp")), uq("b"), canon.Ke("else"), sy("tmp")))))
+	case 6: // expands to a vector literal form: the expansion is evaluated like any other form
+		g.stat("macro-expands-to-vector")
+		def = li(sy("fn"), li(sy("x"), sy("y")), li(sy("quasiquote"), canon.Ve(uq("x"), uq("y"), li(sy("+"), canon.In(1), canon.In(2)))))
+	case 7: // expands to a map literal form
+		g.stat("macro-expands-to-map")
+		def = li(sy("fn"), li(sy("x"), sy("y")), li(sy("list"), li(sy("quote"), sy("do")), canon.Ma(map[string]*canon.Node{canon.Marker + "k": li(sy("+"), canon.In(1), canon.In(2))}), canon.Ma(map[string]*canon.Node{canon.Marker + "r": sy("x")})))
+		def = li(sy("fn"), li(sy("x"), sy("y")), li(sy("quasiquote"), li(sy("do"), uq("y"), li(sy("hash-map"), canon.Ke("v"), uq("x")))))
+		if r.Intn(2) == 0 {
+			// the expansion itself is a map: built with hash-map at expansion time so that it contains the operand forms
+			def = li(sy("fn"), li(sy("x"), sy("y")), li(sy("hash-map"), canon.Ke("a"), sy("x"), canon.Ke("b"), li(sy("quote"), li(sy("+"), canon.In(1), canon.In(2)))))
+		}
 	default: // expansion resolves a free symbol in the caller's scope
 		g.stat("macro-free-symbol")
 		def = li(sy("fn"), li(sy("x"), sy("y")), li(sy("quasiquote"), li(sy("list"), sy("callerv"), uq("x"), uq("y"))))
@@ -829,6 +854,19 @@ func (g *PG) injectFault(forms []*canon.Node) []*canon.Node {
 		},
 		func() *canon.Node { g.stat("fault-builtin-type"); return call("+", g.tr(canon.In(1)), canon.St("s")) },
 		func() *canon.Node { g.stat("fault-unbound-head"); return li(sy("zz-unbound-fn"), g.mark()) },
+		func() *canon.Node {
+			// wrong arity on a function reached through a symbol: the operands' effects still happen first
+			if fs := g.varsOfGlobals(TFn1); len(fs) > 0 {
+				g.stat("fault-arity-named")
+				f := Pick(r, fs).name
+				if r.Intn(2) == 0 {
+					return li(sy(f), g.tr(canon.In(1)), g.tr(canon.In(2)))
+				}
+				return li(sy("do"), g.tr(canon.In(0)), li(sy(f)))
+			}
+			g.stat("fault-arity-few")
+			return li(li(sy("fn"), li(sy("a"), sy("b")), sy("a")), g.tr(canon.In(1)))
+		},
 	})()
 	// replace a random sub-expression in argument position of a random form
 	fi := r.Intn(len(forms))
